@@ -35,7 +35,7 @@ ToSet(seq) == {seq[i] : i \in DOMAIN seq}
 Debug == "VIP_DEBUG" \in DOMAIN IOEnv /\ IOEnv.VIP_DEBUG = "1"
 Chk(label, cond) == IF cond THEN TRUE ELSE (Debug => PrintT(<<"MISMATCH at line", l, label>>)) /\ FALSE
 AllAspects == {"nodes", "peers", "ledger", "total", "links", "stats", "hosts", "nonce", "noncefull", "time",
-               "auth", "billing", "lowbal", "refused", "withdraw", "sel", "reg", "uri", "exact"}
+               "auth", "billing", "lowbal", "refused", "withdraw", "sel", "reg", "uri", "exact", "serial", "snapshot"}
 Aspects == CASE Focus = "all"    -> AllAspects
              [] Focus = "nonce"  -> {"nonce"}
              [] Focus = "peers"  -> {"peers"}
@@ -46,9 +46,14 @@ Aspects == CASE Focus = "all"    -> AllAspects
              [] Focus = "C04"    -> {"auth"}
              [] Focus = "C05"    -> {"nonce"}
              [] Focus = "C06"    -> {"refused"}
-             [] Focus = "C07"    -> {"withdraw"}
+             [] Focus = "C07"    -> {"withdraw", "serial"}
              [] Focus = "C08"    -> {"sel", "time"}
              [] Focus = "C09"    -> {"reg"}
+             [] Focus = "C10"    -> {"snapshot", "serial", "ledger", "total", "peers", "links", "noncefull", "reg", "withdraw", "time"}
+             [] Focus = "C10race" -> {"total", "nonce", "snapshot"}
+             [] Focus = "C01race" -> {"total"}
+             [] Focus = "C05race" -> {"nonce"}
+             [] Focus = "C07race" -> {"withdraw", "nonce"}
              [] Focus = "C11"    -> {"peers"}
              [] Focus = "C19"    -> {"uri"}
 F(x) == x \in Aspects
@@ -83,6 +88,7 @@ ObsOK(T, st) ==
     /\ Chk("total@StoreTrace:79", F("total")  => st.stats.credit = TotalCredit(T) /\ LoggedTotal(st) = TotalCredit(T))
     /\ Chk("links@StoreTrace:80", F("links")  => ObsLinks(T, st))
     /\ Chk("stats@StoreTrace:81", F("stats")  => StatsOK(T, st.stats))
+    /\ Chk("a value handed out earlier was altered by a later operation", F("snapshot") => st.snap)
 
 (* With a narrow focus, continue from the logged observables plus the      *)
 (* hidden parts (recorded peer timestamps, nonce table) of the model.      *)
